@@ -47,6 +47,8 @@ def main():
         finally:
             sh(["git", "-C", REPO, "checkout", "--", "."])
             sh(["git", "-C", REPO, "clean", "-fdq"])
+            # coq/Src/SrcWire.v follows the source tree: bring it back to the clean tree's translation
+            sh([sys.executable, "-c", "import sys; sys.path.insert(0, %r); import vcheck; vcheck.regen_src()" % os.path.join(V, "lib")])
         results[key] = entry
         json.dump(results, open(results_path, "w"), indent=1, sort_keys=True)
     assert clean()
